@@ -204,8 +204,26 @@ def scratch_copy(root='/repo'):
 
 
 def apply_patch(dirpath, patch):
-    r = subprocess.run(['patch', '-p1', '-s', '--no-backup-if-mismatch', '-d', dirpath, '-i', os.path.abspath(patch)],
-                       stdout=subprocess.PIPE, stderr=subprocess.STDOUT, text=True)
+    """Applies the parts of `patch` that touch analysed sources (files outside COPY_DIRS, e.g. test/, are
+    not part of the scratch copy and are dropped)."""
+    secs, cur = [], None
+    with open(patch) as f:
+        for line in f:
+            if line.startswith('diff --git ') or (line.startswith('--- ') and (cur is None or cur['plus'])):
+                cur = {'lines': [], 'plus': None}
+                secs.append(cur)
+            if cur is None:
+                continue
+            cur['lines'].append(line)
+            if line.startswith('+++ ') and cur['plus'] is None:
+                t = line[4:].split('\t')[0].strip()
+                cur['plus'] = t[2:] if t.startswith('b/') else t
+    keep = [c for c in secs if c['plus'] and (c['plus'].split('/')[0] in COPY_DIRS or c['plus'] in COPY_FILES)]
+    if not keep:
+        return False, 'no hunk touches an analysed directory'
+    text = ''.join(''.join(c['lines']) for c in keep)
+    r = subprocess.run(['patch', '-p1', '-s', '-f', '--no-backup-if-mismatch', '-d', dirpath],
+                       input=text, stdout=subprocess.PIPE, stderr=subprocess.STDOUT, text=True)
     return r.returncode == 0, r.stdout
 
 
